@@ -6,20 +6,34 @@ from vlib import tlc
 FILES = ["r", "a", "b", "c"]
 
 
-def url_of(st):
+def subfiles(files):
+    """the files that live in directory d (SubFiles = {"b"} in every cfg file)"""
+    return {"b"}
+
+
+def url_of(st, imp, sub):
+    """Loader!UrlIn: the URL written in file imp for the target, in the given spelling"""
     t = st["target"]
-    return {"plain": t, "dot": "./" + t, "dd": "d/../" + t}[st["sp"]]
+    di, dt = imp in sub, t in sub
+    base = "" if di == dt else ("d/" if not di else "../")
+    detour = "d/../" if not di else "../d/"
+    return {"plain": base + t, "dot": "./" + base + t, "dd": detour + base + t}[st["sp"]]
+
+
+def path_of(f, sub):
+    return ("d/" if f in sub else "") + f + ".scss"
 
 
 def render_graph(files):
     """abstract graph {file: [stmt]} -> in-memory file system"""
+    sub = subfiles(files)
     fs = {"d/x.scss": "/* makes directory d exist */\n"}
     for f, stmts in files.items():
         head, body = [], []
         if any(s["kind"] == "loadcss" for s in stmts):
             head.append('@use "sass:meta";')
         for i, s in enumerate(stmts):
-            u = url_of(s)
+            u = url_of(s, f, sub)
             if s["kind"] == "use":
                 head.append(f'@use "{u}" as u{i};')
             elif s["kind"] == "forward":
@@ -28,7 +42,7 @@ def render_graph(files):
                 body.append(f'@import "{u}";')
             else:
                 body.append(f'@include meta.load-css("{u}");')
-        fs[f + ".scss"] = "\n".join(head + [f".m-{f} {{ k: v }}"] + body) + "\n"
+        fs[path_of(f, sub)] = "\n".join(head + [f".m-{f} {{ k: v }}"] + body) + "\n"
     return fs
 
 
@@ -68,6 +82,8 @@ def classify_result(res):
         return "err:" + (res.get("err") or "").split("\n")[0][:60]
     if st == "abort":
         return "overflow" if res.get("stack_overflow") else "abort"
+    if st == "timeout":
+        return "overflow"      # unbounded recursion that did not exhaust the 8 MiB stack within the time limit (loaded machine)
     return str(st)
 
 
@@ -155,8 +171,7 @@ class LoaderEngine(VectorEngine):
         rng = ctx.rng
         inputs = []
         for _ in range(n):
-            nfiles = rng.randint(2, 4)
-            fl = FILES[:nfiles]
+            fl = rng.choice([["r", "b"], ["r", "a", "b"], ["r", "a", "b", "c"]])
             g = {f: [] for f in fl}
             for _ in range(rng.randint(2, 6)):
                 f = rng.choice(fl)
